@@ -38,6 +38,10 @@ def gen_case_archive(seed, i):
             # printing to a named stream (print's second argument), with or without default printouts
             mp = r.choice([mp + ' print("to audit $.csvpath.line_number", "audit")', 'print("only audit", "audit")',
                            'print("a", "audit") print("b") print("c", "log")'])
+        if r.random() < 0.12:
+            # a failure that leaves CsvPath.collect()/next() itself (not a match component): the collect() function names a
+            # column that a short line does not have; CsvPaths handles it under its own (non-raising) policy
+            mp = r.choice(["collect(3)", 'collect("a", 3) yes()', "yes() collect(4)"])
         ident = r.choice([None, "m" + str(r.randint(1, 50))])
         if ident in ids:
             ident = None
@@ -217,7 +221,10 @@ def gen_case_abort(seed, i):
         members.append({"match": mp, "ident": r.choice([None, f"m{j}"]), "scan": scan})
     method = r.choice(["collect_paths", "fast_forward_paths", "next_paths", "collect_by_line", "next_by_line", "fast_forward_by_line"])
     follow = r.choice(["collect_paths", "collect_by_line", "fast_forward_paths"])
-    return {"recs": recs, "members": members, "k": k, "line": line, "method": method, "follow": follow}
+    # the raise policy alone, or together with the other flags (stop and fail also mark the csvpath before the exception leaves)
+    policy = r.choice([["raise", "collect"], ["raise", "collect"], ["raise", "collect", "stop"], ["raise", "collect", "stop", "fail", "print"],
+                       ["raise", "collect", "fail"]])
+    return {"recs": recs, "members": members, "k": k, "line": line, "method": method, "follow": follow, "policy": policy}
 
 
 def tree(root):
@@ -237,7 +244,8 @@ def case_abort(case):
 
     realenv.reset_dirs()
     res = {"case": case, "disagree": [], "oracle": [], "nontrivial": True}
-    cp = RG.new_csvpaths(policy=["raise", "collect"], csvpath_policy=["raise", "collect"])
+    pol = case.get("policy") or ["raise", "collect"]
+    cp = RG.new_csvpaths(policy=["raise", "collect"], csvpath_policy=pol)
     RG.setup_group(cp, "grp", [member_text(m) for m in case["members"]], "food", case["recs"])
     # a clean second group for the follow-up run
     cp.paths_manager.add_named_paths(name="after", paths=['~ id: ok ~ $[*][yes()]'])
